@@ -840,8 +840,94 @@ func c12SpawnScenario(id string, depth, fan int, seed int64) core.Scenario {
 	}}
 }
 
+// c12ClosedAncestor: mailboxes of a spawn tree are independent: closing the root (or a middle node) leaves the actors
+// below it open - IsClosed() false, every message sent afterwards processed exactly once in order.
+func c12ClosedAncestor(id string, closeWhich int) core.Scenario {
+	return core.Scenario{ID: id, Class: "mailbox.spawn", Run: func(c *core.Ctx) {
+		c.Eval(1)
+		c.Distinct(id)
+		rep := map[string]any{"scenario": id, "closed": [...]string{"root", "child", "root then child"}[closeWhich]}
+		var mu sync.Mutex
+		got := map[string][]int{}
+		mkEff := func(name string) func(*fpgo.ActorDef[int], int) {
+			return func(_ *fpgo.ActorDef[int], m int) {
+				mu.Lock()
+				got[name] = append(got[name], m)
+				mu.Unlock()
+			}
+		}
+		root := fpgo.ActorNewGenerics(mkEff("root"))
+		nextTick()
+		child := root.Spawn(mkEff("child"))
+		nextTick()
+		grand := child.Spawn(mkEff("grandchild"))
+		nextTick()
+		sibling := root.Spawn(mkEff("sibling"))
+		child.Send(1)
+		grand.Send(1)
+		sibling.Send(1)
+		switch closeWhich {
+		case 0:
+			root.Close()
+		case 1:
+			child.Close()
+		case 2:
+			root.Close()
+			child.Close()
+		}
+		open := map[string]*fpgo.ActorDef[int]{"grandchild": grand, "sibling": sibling}
+		if closeWhich == 0 {
+			open["child"] = child
+		}
+		for name, a := range open {
+			if a.IsClosed() {
+				c.Violationf("Spawn:closed-with-ancestor", rep, "%s reports IsClosed() after only an ancestor / relative was closed", name)
+			}
+			for m := 2; m <= 5; m++ {
+				a.Send(m)
+			}
+		}
+		deadline := time.Now().Add(20 * time.Second)
+		for {
+			mu.Lock()
+			ok := true
+			for name := range open {
+				if len(got[name]) < 5 {
+					ok = false
+				}
+			}
+			mu.Unlock()
+			if ok {
+				break
+			}
+			if time.Now().After(deadline) {
+				if quiet, _ := core.QuietNow(); !quiet {
+					c.Inconclusive("watchdog in " + id)
+					return
+				}
+				break
+			}
+			time.Sleep(time.Millisecond)
+		}
+		time.Sleep(2 * time.Millisecond)
+		mu.Lock()
+		for name := range open {
+			if fmt.Sprint(got[name]) != "[1 2 3 4 5]" {
+				c.Violationf("Spawn:messages-lost-after-ancestor-closed", rep, "%s (still open) processed %v, want [1 2 3 4 5]: messages 2..5 were sent after %s had been closed", name, got[name], rep["closed"])
+			}
+		}
+		mu.Unlock()
+		for _, a := range []*fpgo.ActorDef[int]{root, child, grand, sibling} {
+			core.Catch(a.Close)
+		}
+	}}
+}
+
 func c12Scenarios(c *core.Ctx, race bool) []core.Scenario {
 	var out []core.Scenario
+	for w := 0; w < 3; w++ {
+		out = append(out, c12ClosedAncestor(fmt.Sprintf("closed-ancestor-%d-race%v", w, race), w))
+	}
 	for i := 0; i < c.Pick(6, 24); i++ {
 		if race && i >= 2 {
 			break
